@@ -412,49 +412,34 @@ def rule_R4(ctx: Ctx) -> None:
 
 
 def rule_R5(ctx: Ctx) -> None:
+    """dataset equality as a decision table over (other is a MazeDataset, configs equal, maze lists equal): the result is
+    NotImplemented / False for foreign types, otherwise exactly the conjunction - whatever the control flow looks like"""
+    from sa import dtable as DT
+
     fn = ctx.index.func("maze_dataset.dataset.maze_dataset.MazeDataset.__eq__")
     a, b = fn.params()
-    foreign = False
-    parts: set[str] = set()
-    unknown = []
-    weak: list[str] = []
-    for st in fn.node.body:
-        if isinstance(st, ast.Expr) and isinstance(st.value, ast.Constant):
-            continue
-        if isinstance(st, ast.If) and isinstance(st.test, ast.UnaryOp) and isinstance(st.test.op, ast.Not) \
-                and isinstance(st.test.operand, ast.Call) and dotted_of(st.test.operand.func) == "isinstance" \
-                and len(st.body) == 1 and isinstance(st.body[0], ast.Return) \
-                and isinstance(st.body[0].value, (ast.Name, ast.Constant)) \
-                and (getattr(st.body[0].value, "id", None) == "NotImplemented" or getattr(st.body[0].value, "value", 1) is False):
-            foreign = True
-        elif isinstance(st, ast.Return) and isinstance(st.value, ast.BoolOp) and isinstance(st.value.op, ast.And):
-            for v in st.value.values:
-                if isinstance(v, ast.Compare) and len(v.ops) == 1 and isinstance(v.ops[0], ast.Eq):
-                    x = _self_other_field(v.left, a, b, None)
-                    y = _self_other_field(v.comparators[0], a, b, None)
-                    if x and y and x[1] == y[1] and {x[0], y[0]} == {"self", "other"}:
-                        parts.add(x[1])
-                        continue
-                    # same wrapper on both sides, e.g. len(self.mazes) == len(other.mazes): a weaker comparison
-                    l, r = v.left, v.comparators[0]
-                    if isinstance(l, ast.Call) and isinstance(r, ast.Call) and ast.unparse(l.func) == ast.unparse(r.func) \
-                            and len(l.args) == 1 and len(r.args) == 1:
-                        x = _self_other_field(l.args[0], a, b, None)
-                        y = _self_other_field(r.args[0], a, b, None)
-                        if x and y and x[1] == y[1]:
-                            weak.append(ast.unparse(v))
-                            continue
-                unknown.append(ast.unparse(v))
-        else:
-            unknown.append(ast.unparse(st)[:80])
-    slot = {"foreign_type_guard": foreign, "compared": sorted(parts), "weaker_comparisons": weak, "unrecognised": unknown}
-    exp = "NotImplemented/False for foreign types, otherwise cfg == cfg and mazes == mazes"
-    if weak and not {"cfg", "mazes"} <= parts:
-        ctx.violation(fn, slot, exp, "a component is compared only through a weaker function of it (e.g. its length)")
-    elif unknown:
-        ctx.unknown(fn, slot, exp, "unfamiliar shape")
-    else:
-        ctx.judge(fn, foreign and parts == {"cfg", "mazes"}, slot, exp)
+    atoms = {"same_type": [f"isinstance({b}, MazeDataset)", f"isinstance({b}, type({a}))", f"isinstance({b}, {a}.__class__)", f"type({a}) is type({b})", f"type({b}) is type({a})"],
+             "cfg_equal": [f"{a}.cfg == {b}.cfg", f"{b}.cfg == {a}.cfg"],
+             "mazes_equal": [f"{a}.mazes == {b}.mazes", f"{b}.mazes == {a}.mazes"]}
+    t = DT.DecisionTable(fn.node, atoms)
+    rows = t.rows()
+
+    def expected(asg):
+        def pred(o):
+            if o[0] != "return" or o[1] is None:
+                return False
+            if not asg["same_type"]:
+                return X.U(o[1]) in ("NotImplemented", "False")
+            try:
+                return t.truth(o[1], asg) == (asg["cfg_equal"] and asg["mazes_equal"])
+            except Exception:
+                return False
+        return pred
+    ok, rep = DT.judge_table(rows, expected)
+    bad = [r for r in rep if r["ok"] is False]
+    ctx.judge(fn, ok, {"rows": len(rep), "deviations": bad[:3], "undecided": [r for r in rep if r["ok"] is None][:2]},
+              "NotImplemented/False for foreign types, otherwise cfg == cfg and mazes == mazes",
+              "datasets compare equal although a component differs (or through a weaker function of it, e.g. its length), or unequal although both agree")
 
 
 RULES = [
